@@ -311,7 +311,9 @@ impl Run {
 	}
 
 	pub fn finish_cov(&mut self) {
-		self.cov.sim_ms = hooks::now_ms() - self.start_ms;
+		// simulated time covered: the forward moves of the virtual clock (jumps back
+		// and snapshot restores do not subtract)
+		self.cov.sim_ms = hooks::elapsed_ms();
 		self.cov.blocks = self.ex.world.chain.blocks_mined;
 	}
 
